@@ -1,5 +1,6 @@
 """C04 — latency, service time and processing time mean what the docs say (one client's executor on a virtual clock)."""
 import json
+from fractions import Fraction
 
 from harness import exec_common as ec
 from harness.framework import Stream
@@ -56,6 +57,57 @@ def gen_nested(ctx):
             case["on_error"] = "continue"
         ec.add_programs(rng, case, exact, share=0.9)
         yield case
+
+
+def gen_feedback(ctx):
+    """the feedback path runner result -> execute_single -> UnitAwareScheduler: throttled deterministic tasks with at least three
+    requests, weights > 1, a unit different from an ops/s target, runner-reported failures (success False, with weight and unit)
+    at any position including before the first success, raised errors in between; on-error=continue"""
+    rng = ctx.rng
+    for _ in range(ctx.budget):
+        exact = rng.random() < 0.7
+        C = rng.choice([1, 2, 3, 4])
+        unit = rng.choice(["docs", "pages", "ops", "MB"])
+        target_in_ops = rng.random() < 0.5
+        w0 = rng.choice([2, 3, 5, 10, 20, 100, 1000]) if rng.random() < 0.85 else 1
+        weff = 1 if (target_in_ops and unit != "ops") else w0
+        if exact:
+            T = Fraction(2) ** rng.choice([-2, -1, 0, 1, 2, 3]) * C * weff
+        else:
+            T = Fraction(rng.choice([0.5, 1, 3, 7, 10, 33, 100])) * weff
+        tunit = "ops" if target_in_ops else unit
+        how = rng.choice(["str", "num", "interval"]) if target_in_ops else "str"
+        if how == "str":
+            tput = {"tt": {"kind": "str", "s": (str(int(T)) if T.denominator == 1 else str(float(T))) + f" {tunit}/s"}}
+        elif how == "num":
+            tput = {"tt": {"kind": "float", "q": ec.qs(Fraction(float(T)))}}
+        else:
+            tput = {"ti": {"kind": "float", "q": ec.qs(Fraction(float(1 / T)))}}
+        interval = Fraction(C * weff) / T
+        n = rng.randrange(3, 10)
+        weights = [w0] if rng.random() < 0.6 else [w0, w0, w0 * 2, w0 * 4]
+        first_ok = rng.choice([0, 0, 1, 2, 3])  # runner-reported failures / raised errors before the first success
+        reqs = []
+        for i in range(n + rng.choice([0, 2])):
+            r = rng.random()
+            w = rng.choice(weights)
+            if i < first_ok or r < 0.15:
+                out = rng.choice([
+                    {"k": "dict", "w": w, "unit": unit, "success": False, "tput": None, "etype": rng.choice([None, "bulk"])},
+                    {"k": "dict", "w": w, "unit": unit, "success": False, "tput": None, "etype": None},
+                    {"k": "api", "status": rng.choice([429, 500])}, {"k": "timeout"}])
+            elif r < 0.6:
+                out = {"k": "tuple", "w": w, "unit": unit}
+            else:
+                out = {"k": "dict", "w": w, "unit": unit, "success": rng.choice([None, True]), "tput": None, "etype": None}
+            sv = rng.choice([interval / 4, interval / 2, interval, interval * 3, Fraction(0)])
+            reqs.append({"gen": "0/1", "pre": ec.qs(ec.gen_overhead(rng, exact)), "service": ec.qs(Fraction(float(sv)) if not exact else sv.limit_denominator(1024)),
+                         "post": "0/1", "draw": "0/1", "out": out, "rc": None, "rp": None, "sp": None})
+        yield {"task": {"warmup_it": rng.choice([None, 0, 1]), "iters": n, "warmup_t": None, "period": None, "ramp_up": None, "clients": C, "tput": tput,
+                        "sched": rng.choice([None, "deterministic"]), "completes_parent": False, "any_completes_parent": False},
+               "client": {"id": rng.randrange(0, 8), "idx": rng.randrange(0, C), "gidx": 0, "total": C}, "t0": ec.qs(ec.dy(rng, 0, 64)), "epoch": "1600000000/1",
+               "on_error": "continue" if rng.random() < 0.9 else "abort", "runner_completion": False, "src_infinite": True, "src_progress": False,
+               "cancel_at": None, "complete_at": None, "queue_cap": 16384, "reqs": reqs}
 
 
 def gen_composite(ctx):
@@ -239,6 +291,7 @@ STREAMS = [
     Stream("exec_exact", gen_exact, run, quick=8000, thorough=300000, shards=16),
     Stream("exec_float", gen_float, run, quick=5000, thorough=200000, shards=16),
     Stream("exec_slow_service", gen_slow, run, quick=2500, thorough=100000, shards=8),
+    Stream("exec_scheduler_feedback", gen_feedback, run, quick=4000, thorough=150000, shards=16),
     Stream("exec_nested_contexts", gen_nested, run, quick=4000, thorough=200000, shards=16),
     Stream("exec_real_composite", gen_composite, run, quick=3000, thorough=150000, shards=16),
     Stream("sampler_preempt", gen_sampler, run_sampler, quick=320, thorough=8000, shards=16),
